@@ -81,7 +81,12 @@ def step (specMode : Bool × Bool) (tid : String) (st : St) (ws : List String) :
       let trig' := st.trig || fired
       let st' : St := { code := c', spec := s', trig := trig', wrote := wrote' }
       let specOut := if oc == .bad then "-" else showOut os
-      (st', showOut oc, specOut, trigs trig')
+      -- error category as the C API reports it (detail): the malformed statement is a syntax error, every other failure an execution error
+      let cat := match ws with
+        | [_, "refused", "0"] => "syntax"
+        | _ => "execution"
+      let mOut := if oc == .err then "err | " ++ cat else showOut oc
+      (st', mOut, specOut, trigs trig')
 
 def init : St := ⟨State.init, State.init, false, []⟩
 
